@@ -313,6 +313,8 @@ var c19Errors = []c19Err{
 	{"unterminated-string-backslash", "lex", KwPrint + " \"C:\\tmp\\", true},
 	{"stray-backslash", "lex", KwPrint + " 1 \\ 2;", false},
 	{"stray-question", "lex", "?", false},
+	{"number-too-large", "lex", KwPrint + " 1" + strings.Repeat("0", 400) + ";", false},
+	{"number-too-large-bangla", "lex", KwVar + " big = \u09e7" + strings.Repeat("\u09e6", 330) + ".5;", false},
 	{"missing-name", "syn", KwVar + " = 5;", false},
 	{"missing-operand", "syn", KwPrint + " (1 + ;", false},
 	{"missing-semicolon-lenient", "syn", KwPrint + " 1 " + KwPrint + " 2;", false},
@@ -400,7 +402,7 @@ func c19ClassCase(s Src, tag string) *Case {
 			rtIdx = pos
 			// optionally also a front-end error later in the text: then nothing runs at all
 			if Bool(s, "second") {
-				e2 := c19Errors[s.Int("errkind2", 0, 19)]
+				e2 := c19Errors[s.Int("errkind2", 0, 21)]
 				body = append(body, ln{text: e2.text})
 				class = e2.class
 				errName += "+" + e2.name
